@@ -264,9 +264,10 @@ func (p *Program) verifyFuncPass(con *Contract, prev *VC) (res *funcResult) {
 		fr.freeVals = append(fr.freeVals, v)
 	}
 	fr.mem, fr.entry = mem, mem
-	// a closure verified on its own (sweep): captured map variables that the enclosing function only
-	// ever assigns make(...) before creating the closure hold a non-nil map
-	if con.Default {
+	// a closure verified on its own: captured map variables that the enclosing function only
+	// ever assigns make(...) before creating the closure hold a non-nil map (read off the SSA of the
+	// enclosing function, so it holds whether or not that function's body is under contract)
+	{
 		for _, i := range capturedMapsNonNil(fn) {
 			fv := fr.freeVals[i]
 			pt := fn.FreeVars[i].Type().Underlying().(*types.Pointer)
